@@ -160,7 +160,7 @@ def get_subset_stat_from_samples(vals, subset_vect, cycle_vect, func=np.mean):
 
 def get_chain_stat_from_samples(vals, chain_vect, subset_vect, cycle_vect, func=np.mean):
     """Compute a metric across all samples from each chain."""
-    nchains = np.max(chain_vect) + 1
+    nchains = np.max(chain_vect) + 1 if len(chain_vect) > 0 else 0
     out = np.zeros((nchains,))
     for ii in range(nchains):
         out[ii] = func(vals[map_chain_to_samples(chain_vect, subset_vect, cycle_vect, ii)])
